@@ -309,7 +309,9 @@ EXPORT void cplx_ifft(const CPLX_IFFT_PRECOMP* itables, void* data) {
 EXPORT void cplx_ifft_simple(uint32_t m, void* data) {
   static CPLX_IFFT_PRECOMP* p[31] = {0};
   CPLX_IFFT_PRECOMP** f = p + log2m(m);
+  if (!*f) SPQLIOS_VERIF_EVENT(1, 8, log2m(m), 0, 0, 0);
   if (!*f) *f = new_cplx_ifft_precomp(m, 0);
+  SPQLIOS_VERIF_EVENT(2, 8, log2m(m), (*f)->m, 0, 0);
   (*f)->function(*f, data);
 }
 
